@@ -31,7 +31,7 @@ def run(ctx):
         if not r["violated"]:
             raise vlib.Infra("sensitivity: keeping listeners after the result no longer violates anything")
     rc, out = vlib.go_driver(ctx, "vm", "^TestVerifWsListeners$", module_dir=MOD, files=["verif_submit_test.go", "verif_ws_test.go"],
-                             timeout=ctx.pick(1200, 3000), env={"VERIF_SCENARIOS": ctx.pick(4, 30), "VERIF_ROUNDS": ctx.pick(8, 12)})
+                             timeout=ctx.pick(1200, 3000), env={"VERIF_SCENARIOS": ctx.pick(3, 30), "VERIF_ROUNDS": ctx.pick(7, 12)})
     p = vlib.panic_in_repo(out)
     if p:
         raise vlib.Violation("panic in the code under test: " + p, signature="panic")
@@ -62,11 +62,11 @@ def run(ctx):
     for f in files:
         os.remove(f)
     vlib.report_failures(ctx, fails, describe)
-    ctx.cov["rule"] = ("per VM 8 (quick) / 12 (thorough) rounds of 1-3 client steps (optional block registration, 0-2 TxMode messages out "
+    ctx.cov["rule"] = ("per VM 7 (quick) / 12 (thorough) rounds of 1-3 client steps (optional block registration, 0-2 TxMode messages out "
                        "of {fine, already expired, failing auth, somebody's pending transaction again}, one fine marker), sometimes a "
                        "close, then the next block; evaluation = one client's receipt after one block; non-trivial = it received "
                        "something")
     ctx.assumptions += ["registrations are synchronised through a marker transaction on the same connection (the server handles a "
                         "connection's messages in order); a registration not processed within 30 s is reported",
-                        "after a block a client that is owed something is waited for up to 30 s, then 250 ms of silence end the read",
+                        "after a block a client that is owed something is waited for up to 30 s, then 150 ms of silence end the read",
                         "expiry notices are only exercised for transactions that were already expired when registered"]
